@@ -262,7 +262,11 @@ func (d *Data) handleIngest(ctx *datastore.VersionedCtx, w http.ResponseWriter, 
 }
 
 func (d *Data) handleProximity(ctx *datastore.VersionedCtx, w http.ResponseWriter, r *http.Request, parts []string) {
-	// GET <api URL>/node/<UUID>/<data name>/proximity/<label 1>,<label 2>
+	// GET <api URL>/node/<UUID>/<data name>/proximity/<label 1>/<label 2>
+	if len(parts) < 6 {
+		server.BadRequest(w, r, "expect two labels to follow /proximity endpoint: proximity/<label 1>/<label 2>")
+		return
+	}
 	timedLog := dvid.NewTimeLog()
 
 	queryStrings := r.URL.Query()
